@@ -167,6 +167,15 @@ def list_remove(I, st, fv, args, kwargs, ctx):
 def list_setitem(I, st, ov, kv, v, ctx):
     h = st.heap[ov.oid]
     its = h.fields.get("$items")
+    if isinstance(kv, Conc) and isinstance(kv.py, slice) and kv.py == slice(None, None, None):
+        new = I.known_items(st, v)
+        if new is not None:
+            _set_items(I, h, new)
+            return [(st, Conc(None))]
+        if isinstance(v, Ref) and st.heap[v.oid].kind == "list":
+            h.seq = st.heap[v.oid].seq
+            h.fields.pop("$items", None)
+            return [(st, Conc(None))]
     if its is not None and isinstance(kv, Conc) and isinstance(kv.py, int):
         try:
             new = list(its)
